@@ -1,8 +1,10 @@
 // Correspondence / oracle harness: runs the real crates in-process on case lines read from
 // stdin and prints one canonical line per case (see /verif/DESIGN.md §2.3).
 mod codec;
+mod m_ast;
 mod m_lex;
 mod m_parse;
+mod m_sema;
 mod m_symtab;
 mod m_types;
 
@@ -31,6 +33,8 @@ fn main() {
         "symtab" => m_symtab::line,
         "lex" => m_lex::line,
         "parse" => m_parse::line,
+        "ast" => m_ast::line,
+        "sema" => m_sema::line,
         "uclass" => m_lex::uclass,
         _ => {
             eprintln!("usage: oq3-run <mode>");
